@@ -14,7 +14,7 @@ import (
 )
 
 var c16Segs = []string{"a", "b", "c", "db", "host", "log", "logging", "port", "ports", "x-y", "k_1", "0", "12"}
-var c16Vals = []string{"1", "x", "hello", "true", "a b", "v-1", "0.5", "é世", "http//h"}
+var c16Vals = []string{"1", "x", "hello", "true", "a b", "v-1", "0.5", "é世", "http//h", "", "80%", "%d %s - done", "100%%", "a%20b"}
 
 func c16Key(r *rand.Rand) string {
 	n := 1 + r.Intn(3)
@@ -273,7 +273,7 @@ func c16Case(r *rand.Rand, kv map[string]string, which int) Case {
 func init() {
 	register(&Prop{
 		ID:   "C16",
-		Rule: "finite sets of (dotted key, plain string value), 1-6 keys of 1-3 path-safe segments drawn from a pool with textual-prefix siblings (log/logging, port/ports, db/dbname-like), half conflict-free and half allowed to conflict (a key that is a dotted prefix of another). kinds: unflatten (utils.Unflatten x50), fromprops (Builder().FromProperties x50), decode (properties text through props.DecoderFn and the file-suffix provider x50; encoder->decoder round trips with EncoderFn, the provider's encoder and DomEncoderFn). Go-side: flatten == kv when conflict-free; all 50 repeats identical for every key set. The resulting tree is compared with the Coq model (sorted-key processing). Non-trivial: key set has a shared dotted prefix. Distinct by Gallina term.",
+		Rule: "finite sets of (dotted key, plain string value incl. the empty string and values containing %), 1-6 keys of 1-3 path-safe segments drawn from a pool with textual-prefix siblings (log/logging, port/ports, db/dbname-like), half conflict-free and half allowed to conflict (a key that is a dotted prefix of another). kinds: unflatten (utils.Unflatten x50), fromprops (Builder().FromProperties x50), decode (properties text through props.DecoderFn and the file-suffix provider x50; encoder->decoder round trips with EncoderFn, the provider's encoder and DomEncoderFn). Go-side: flatten == kv when conflict-free; all 50 repeats identical for every key set. The resulting tree is compared with the Coq model (sorted-key processing). Non-trivial: key set has a shared dotted prefix. Distinct by Gallina term.",
 		Corpus: func() []Case {
 			return []Case{
 				c16Case(nil, map[string]string{"a": "1", "a.b": "2"}, 0), // pinned: order dependent
